@@ -147,7 +147,8 @@ def conn_conformance(pid, tier, seed, kind, gen, tag):
 # ---------------------------------------------------------------------------
 # specification -> implementation: TLC-generated behaviours replayed into the real connection
 # ---------------------------------------------------------------------------
-GEN_PROJ = {"C01": {"gen:res", "gen:popped"}, "C02": {"gen:res", "gen:popped"}, "C11": {"gen:after-error"}, "C13": {"gen:cont"}}
+GEN_PROJ = {"C01": {"gen:res", "gen:popped"}, "C02": {"gen:res", "gen:popped"}, "C04": {"gen:res", "gen:popped"},
+            "C11": {"gen:after-error"}, "C13": {"gen:cont"}}
 
 def gen_conn_replay(pid, tier, seed):
     """tlc -simulate on Gen_Conn (BUF = 32) prints behaviours with the specification's expectations;
@@ -208,7 +209,10 @@ def gen_conn_replay(pid, tier, seed):
                     bad.add("gen:res")
             else:
                 if e["bytes"] != a["bytes"]:
-                    raise V.ToolError("replay delivered other bytes than generated")
+                    # the connection offered a smaller window than the machine allows (or none)
+                    mism.append({"run": rid, "fields": ["gen:res", "gen:popped", "gen:after-error"] if errored else ["gen:res", "gen:popped"],
+                                 "detail": {"expected_chunk": a["bytes"], "delivered": e["bytes"], "window": e.get("window")}})
+                    break
                 exp_err = a["err"]
                 got = e["res"]["e"]["t"] if e["res"]["k"] == "ParseError" else ("none" if e["res"]["k"] == "Ok" else e["res"]["k"])
                 if got != exp_err:
@@ -301,7 +305,7 @@ def evidence_from_trace(pid, traces):
                 distinct.add(h)
     return evals, len(distinct), samples
 
-def conn_property(pid, tier, seed, models, drivers, assumptions, design_ref, extra_fn=(), extra_srv=(), gen=False):
+def conn_property(pid, tier, seed, models, drivers, assumptions, design_ref, extra_fn=(), extra_srv=(), gen_replay=False):
     t0 = time.time()
     known = [k for k in V.load_known() if k["property"] == pid]
     violations, known_hits, oop = [], [], 0
@@ -367,7 +371,7 @@ def conn_property(pid, tier, seed, models, drivers, assumptions, design_ref, ext
             sig = "fn|%s|crash" % c["case"].get("e")
             violations.append((sig, V.save_replay(pid, {"property": pid, "level": "fn", "case": c["case"], "signature": sig, "mismatch": {"crash": c["rc"]}})))
     gres = None
-    if gen:
+    if gen_replay:
         gres = gen_conn_replay(pid, tier, seed)
         evals += gres["behaviours"]
         distinct += gres["behaviours"]
@@ -387,6 +391,8 @@ def conn_property(pid, tier, seed, models, drivers, assumptions, design_ref, ext
     for i, (kind, domain, nq, nt) in enumerate(extra_srv):
         sr = srv_conformance(pid, tier, seed, kind, domain, nq if tier == "quick" else nt, "%s-srv-%s-%d" % (pid, kind, i))
         sres.append(sr)
+        if sr["crashes"]:
+            raise V.ToolError("server driver %s in domain %s" % (sr["crashes"][0]["how"], sr["domain"]))
         bad = {m["hist"]: m for m in sr["mismatches"] if "hist" in m}
         for hid, evs in hist_events(sr["trace"]):
             evals += 1
@@ -442,17 +448,17 @@ def conn_models(tier, extra=()):
     return (["conn_quick"] if tier == "quick" else ["conn_guided4", "conn_free3"]) + list(extra)
 
 TABLE = {
-    "C01": lambda tier, seed: conn_property("C01", tier, seed, conn_models(tier), [("small", "C01"), ("full", "C01")], CONN_ASSUME, "DESIGN.md 6 C01", gen=True),
-    "C02": lambda tier, seed: conn_property("C02", tier, seed, conn_models(tier), [("full", "C02")], CONN_ASSUME, "DESIGN.md 6 C02"),
+    "C01": lambda tier, seed: conn_property("C01", tier, seed, conn_models(tier), [("small", "C01"), ("full", "C01")], CONN_ASSUME, "DESIGN.md 6 C01", gen_replay=True),
+    "C02": lambda tier, seed: conn_property("C02", tier, seed, conn_models(tier), [("full", "C02")], CONN_ASSUME, "DESIGN.md 6 C02", gen_replay=True),
     "C03": lambda tier, seed: conn_property("C03", tier, seed, conn_models(tier), [("full", "C03"), ("small", "C03")], CONN_ASSUME, "DESIGN.md 6 C03", extra_fn=["C03"]),
     "C04": lambda tier, seed: conn_property("C04", tier, seed, conn_models(tier), [("full", "C04"), ("small", "C04")], CONN_ASSUME, "DESIGN.md 6 C04",
-                                            extra_srv=[("full", "C04", 200, 2000)]),
+                                            extra_srv=[("full", "C04", 200, 2000)], gen_replay=True),
     "C06": lambda tier, seed: conn_property("C06", tier, seed, ["mc_write"], [("full", "C06")], CONN_ASSUME, "DESIGN.md 6 C06"),
     "C11": lambda tier, seed: conn_property("C11", tier, seed, conn_models(tier), [("full", "C11"), ("small", "C11")], CONN_ASSUME, "DESIGN.md 6 C11",
-                                            extra_srv=[("full", "C09", 150, 1500)], gen=True),
+                                            extra_srv=[("full", "C09", 150, 1500)], gen_replay=True),
     "C12": lambda tier, seed: conn_property("C12", tier, seed, ["conn_files"], [("full", "C12")], CONN_ASSUME, "DESIGN.md 6 C12"),
     "C13": lambda tier, seed: conn_property("C13", tier, seed, conn_models(tier), [("full", "C13"), ("small", "C13")], CONN_ASSUME, "DESIGN.md 6 C13",
-                                            extra_srv=[("full", "C08", 200, 2000)], gen=True),
+                                            extra_srv=[("full", "C08", 200, 2000)], gen_replay=True),
 }
 
 # ---------------------------------------------------------------------------
@@ -473,11 +479,11 @@ CHECK_DEADLOCK FALSE
 
 # first-divergence kinds that belong to each property's projection
 SRV_PROJ = {
-    "C07": r"^(bytes:|sweep:in-flight|token:|yield:)",
-    "C08": r"^(ready:|batch:|pollerr:|apierr:|bytes:missing|bytes:differ|yield:|write:|invariant)",
-    "C09": r"^(pollerr:|apierr:|ready:|sweep:dead|fds:count|batch:|yield:|bytes:missing)",
-    "C10": r"^(capacity:|fds:|sweep:|eof:|bytes:)",
-    "C18": r"^(kill:|ready:|pollerr:|batch:)",
+    "C07": r"^(bytes:|sweep:in-flight|token:|yield:|capacity:accepted|apierr:)",
+    "C08": r"^(ready:|batch:|pollerr:|apierr:|bytes:missing|bytes:differ|yield:|write:|invariant|hang)",
+    "C09": r"^(pollerr:|apierr:|ready:|sweep:dead|fds:count|batch:|yield:|bytes:missing|hang)",
+    "C10": r"^(capacity:|fds:|sweep:|eof:|bytes:|pollerr:)",
+    "C18": r"^(kill:|ready:|pollerr:|batch:|hang)",
     "C04": r"^(bytes:|yield:)",
     "C11": r"^(bytes:|yield:)",
     "C13": r"^(bytes:|yield:|ready:stall)",
@@ -516,14 +522,28 @@ def srv_conformance(pid, tier, seed, kind, domain, nhist, tag):
     with open(trace, "w") as out:
         hid = 0
         for pr, f, part in procs:
+            hung = False
             try:
-                _, err = pr.communicate(timeout=900)
+                _, err = pr.communicate(timeout=180 if tier == "quick" else 900)
             except subprocess.TimeoutExpired:
                 pr.kill()
-                crashes.append({"how": "hang", "part": part})
+                pr.communicate()
+                hung = True
             f.close()
-            if pr.returncode not in (0, None):
-                crashes.append({"how": "exit %s" % pr.returncode, "part": part})
+            if hung or pr.returncode not in (0, None):
+                # the unfinished history at the end of the part file is the culprit
+                steps = []
+                for line in open(part):
+                    if '"e":"reset"' in line:
+                        steps = []
+                    if line.endswith("\n"):
+                        try:
+                            steps.append(json.loads(line))
+                        except Exception:
+                            pass
+                    if '"e":"endhist"' in line:
+                        steps = []
+                crashes.append({"how": "hang" if hung else "exit %s" % pr.returncode, "steps": steps})
             # renumber histories so that ids are unique across parts; drop an unfinished tail
             buf = []
             for line in open(part):
@@ -551,6 +571,55 @@ def srv_conformance(pid, tier, seed, kind, domain, nhist, tag):
     V.log("%s/%s/%s: %d histories requested, %d events validated (exec %.1fs, TLC %.1fs), %d divergent histories, %d crashes"
           % (tag, kind, domain, nhist, events, t_exec, t_val, len(mism), len(crashes)))
     return {"kind": kind, "domain": domain, "trace": trace, "mismatches": mism, "crashes": crashes, "events": events,
+            "states": sum(r["states"] for r in res)}
+
+def gen_srv_replay(pid, tier, seed, cfgname):
+    """Specification -> implementation at server level: tlc -simulate on Gen_Srv prints histories of harness
+    steps; `mh srv-replay` executes them on the real server (small build) and Trace_Srv validates the recorded trace."""
+    binpath = V.build_harness("small")
+    n = 150 if tier == "quick" else 3000
+    metadir = os.path.join(V.WORK, "tlc", "gensrv-" + pid)
+    cmd = ["java", "-XX:+UseParallelGC", "-Xmx4g", "-Xss1g", "-cp", V.JAR, "tlc2.TLC", "-workers", "1", "-seed", str(seed),
+           "-simulate", "num=%d" % n, "-depth", "140", "-metadir", metadir, "-noGenerateSpecTE",
+           "-config", os.path.join(V.SPEC, cfgname), os.path.join(V.SPEC, "Gen_Srv.tla")]
+    t0 = time.time()
+    pr = V.sh(cmd, timeout=1800, cwd=V.SPEC)
+    out = pr.stdout.decode(errors="replace")
+    import shutil
+    shutil.rmtree(metadir, ignore_errors=True)
+    if re.search(r"Invariant \w+ is violated", out):
+        raise V.ToolError("Gen_Srv: the specification violates its own invariant during simulation")
+    seen, hists = set(), []
+    for m in re.finditer(r'^"REPLAY (.*)"$', out, re.M):
+        raw = m.group(1)
+        h = hashlib.sha256(raw.encode()).hexdigest()
+        if h in seen:
+            continue
+        seen.add(h)
+        hists.append(json.loads(json.loads('"' + raw + '"')))
+    if not hists:
+        raise V.ToolError("Gen_Srv produced no behaviour: " + out[-600:])
+    tag = "%s-gensrv" % pid
+    steps_file = os.path.join(V.WORK, tag + ".ndjson")
+    with open(steps_file, "w") as f:
+        for i, h in enumerate(hists):
+            head = {"e": "reset", "hist": i + 1, "nclients": 4, "limit": [2, 0], "kill": True}
+            f.write(json.dumps([head] + h + [{"e": "recv", "c": c} for c in (1, 2, 3, 4)] + [{"e": "poll"}, {"e": "fdcount"}]) + "\n")
+    trace = os.path.join(V.WORK, tag + ".trace")
+    sockdir = os.path.join(V.WORK, "sock")
+    os.makedirs(sockdir, exist_ok=True)
+    with open(trace, "w") as fout:
+        pr = subprocess.run([binpath, "srv-replay", steps_file, sockdir], stdout=fout, stderr=subprocess.PIPE, timeout=600)
+    if pr.returncode != 0:
+        raise V.ToolError("srv-replay failed: " + pr.stderr.decode()[-400:])
+    res = V.validate_trace("Trace_Srv.tla", srv_cfg("small"), trace, tag, timeout_s=1500, boundary='"e":"reset"')
+    errors = [r for r in res if r["error"]]
+    if errors:
+        raise V.ToolError("trace validation failed to run: %s (%s)" % (errors[0]["error"], errors[0]["shard"]))
+    mism = [m for r in res for m in r["mismatches"]]
+    events = sum(r["consumed"] for r in res)
+    V.log("%s: %d TLC-generated histories replayed on the real server, %d events validated (%.0fs), %d divergent" % (tag, len(hists), events, time.time() - t0, len(mism)))
+    return {"kind": "small", "domain": "tlc-generated:" + cfgname, "trace": trace, "mismatches": mism, "crashes": [], "events": events,
             "states": sum(r["states"] for r in res)}
 
 def nontrivial_srv(pid, evs):
@@ -589,7 +658,10 @@ def srv_property(pid, tier, seed, models, drivers, assumptions, design_ref):
             violations.append(("model:%s:%s" % (mname, r["violated"]), path))
     cres = []
     for i, (kind, domain, nq, nt) in enumerate(drivers):
-        cres.append(srv_conformance(pid, tier, seed, kind, domain, nq if tier == "quick" else nt, "%s-%s-%d" % (pid, kind, i)))
+        if kind == "gen":
+            cres.append(gen_srv_replay(pid, tier, seed, domain))
+        else:
+            cres.append(srv_conformance(pid, tier, seed, kind, domain, nq if tier == "quick" else nt, "%s-%s-%d" % (pid, kind, i)))
     evals, distinct, samples, total_div = 0, set(), [], 0
     for cr in cres:
         bad = {m["hist"]: m for m in cr["mismatches"] if "hist" in m}
@@ -617,7 +689,14 @@ def srv_property(pid, tier, seed, models, drivers, assumptions, design_ref):
                                            "signature": sig, "steps": steps, "mismatch": m})
                 violations.append((sig, path))
         for c in cr["crashes"]:
-            raise V.ToolError("server driver %s" % c)
+            # a call of the server that never returns (or kills the driver) in the middle of a history
+            sig = "srv|%s|%s|%s" % (cr["kind"], cr["domain"], "hang" if c["how"] == "hang" else "crash")
+            if c["how"] == "hang" and re.search(SRV_PROJ[pid], "hang"):
+                path = V.save_replay(pid, {"property": pid, "level": "srv", "build": cr["kind"], "domain": cr["domain"], "signature": sig,
+                                           "steps": c["steps"], "mismatch": {"kind": "hang", "detail": "the driver blocked inside a call of the server (last step is the one after the last logged event)"}})
+                violations.append((sig, path))
+            else:
+                raise V.ToolError("server driver %s in domain %s" % (c["how"], cr["domain"]))
     cov = {
         "states": sum(r["distinct"] for r in mres) + sum(c["states"] for c in cres),
         "transitions": sum(r["states_generated"] for r in mres) + sum(c["events"] for c in cres),
@@ -661,11 +740,11 @@ SRV_ASSUME = [
 ]
 
 TABLE.update({
-    "C07": lambda tier, seed: srv_property("C07", tier, seed, ["srv_quick", "srv_race", "srv_capq"] + (["srv_cap"] if tier == "thorough" else []), [("full", "C07", 300, 3000), ("small", "C07", 300, 3000)], SRV_ASSUME, "DESIGN.md 6 C07"),
-    "C09": lambda tier, seed: srv_property("C09", tier, seed, ["srv_quick", "srv_race", "srv_capq"] + (["srv_cap"] if tier == "thorough" else []), [("full", "C09", 300, 3000), ("small", "C09", 200, 2000), ("small", "C10", 200, 2000)], SRV_ASSUME, "DESIGN.md 6 C09"),
+    "C07": lambda tier, seed: srv_property("C07", tier, seed, ["srv_quick", "srv_race", "srv_capq"] + (["srv_cap"] if tier == "thorough" else []), [("full", "C07", 300, 3000), ("small", "C07", 300, 3000), ("full", "C07pipe", 200, 2000), ("gen", "Gen_Srv_rogue.cfg", 0, 0)], SRV_ASSUME, "DESIGN.md 6 C07"),
+    "C09": lambda tier, seed: srv_property("C09", tier, seed, ["srv_quick", "srv_race", "srv_capq"] + (["srv_cap"] if tier == "thorough" else []), [("full", "C09", 300, 3000), ("small", "C09", 200, 2000), ("small", "C10", 200, 2000), ("full", "C09slow", 40, 400), ("gen", "Gen_Srv_rogue.cfg", 0, 0)], SRV_ASSUME, "DESIGN.md 6 C09"),
     "C10": lambda tier, seed: srv_property("C10", tier, seed, ["srv_capq"] + (["srv_cap"] if tier == "thorough" else []), [("small", "C10", 300, 3000), ("full", "C10", 150, 1500)], SRV_ASSUME, "DESIGN.md 6 C10"),
     "C18": lambda tier, seed: srv_property("C18", tier, seed, ["srv_kill"], [("full", "C18", 300, 3000), ("small", "C18", 200, 2000)], SRV_ASSUME, "DESIGN.md 6 C18"),
-    "C08": lambda tier, seed: srv_property("C08", tier, seed, ["srv_quick", "srv_progs", "srv_live"], [("full", "C08", 300, 3000), ("small", "C08", 200, 2000), ("full", "C08big", 24, 400)], SRV_ASSUME, "DESIGN.md 6 C08"),
+    "C08": lambda tier, seed: srv_property("C08", tier, seed, ["srv_quick", "srv_progs", "srv_live"], [("full", "C08", 300, 3000), ("small", "C08", 200, 2000), ("full", "C08big", 24, 400), ("gen", "Gen_Srv_good.cfg", 0, 0)], SRV_ASSUME, "DESIGN.md 6 C08"),
 })
 
 # ---------------------------------------------------------------------------
